@@ -38,6 +38,7 @@ def _init(modname):
     _G["mods"] = loader.load(files)
     _G["setup"] = getattr(importlib.import_module(modname), "engine_setup", None)
     _G["reg"].pinned_locals = _G.get("pinned_locals", {})
+    _G["reg"].pinned_roles = _G.get("pinned_roles", {})
 
 
 def _has(mod, qual):
@@ -169,6 +170,7 @@ def main(argv=None):
             jobs.append((file, qual, variant, timeout_ms, pid))
     base_path0 = os.path.join(ROOT, "baseline", f"{pid}.json")
     _G["pinned_locals"] = json.load(open(base_path0)).get("locals", {}) if os.path.exists(base_path0) else {}
+    _G["pinned_roles"] = json.load(open(base_path0)).get("roles", {}) if os.path.exists(base_path0) else {}
     with mp.Pool(a.jobs, initializer=_init, initargs=(modname,)) as pool:
         results = pool.map(_job, jobs, chunksize=1)
 
@@ -378,7 +380,9 @@ def main(argv=None):
         json.dump({"property": pid, "discharged": sorted(o["name"] for o in real_obs if o["status"] == "discharged"),
                    "unproved": sorted(o["name"] for o in real_obs if o["status"] != "discharged" and o.get("structural")),
                    "locals": {f"{file}:{qual}": prove.ordered_locals(mods[file].find(qual)) for (file, qual), c in reg.contracts.items()
-                              if not c.extern and file in mods and not file.startswith("@") and _has(mods[file], qual)}},
+                              if not c.extern and file in mods and not file.startswith("@") and _has(mods[file], qual)},
+                   "roles": {f"{file}:{qual}": prove.local_roles(mods[file].find(qual)) for (file, qual), c in reg.contracts.items()
+                             if not c.extern and file in mods and not file.startswith("@") and _has(mods[file], qual)}},
                   open(base_path, "w"), indent=0)
         print(f"baseline written: {base_path}")
     if native_err:
@@ -425,7 +429,10 @@ def main(argv=None):
             print(f"UNDECIDED property={pid} obligation={o['name']} status={o['status']} ({o.get('where')}) model={o.get('model')}")
         return 2
     if baseline is not None:
-        lost = [n for n in baseline if n not in {o["name"] for o in real_obs}]
+        # call-site obligations (`…@callee#k…`) follow the call structure of the code (extracting or inlining a helper renames them);
+        # the clauses that carry the property (post / raises / frame / invariants / lemmas) must all still be generated
+        have = {o["name"] for o in real_obs}
+        lost = [n for n in baseline if n not in have and "@" not in n.rsplit("]/", 1)[-1]]
         if lost:
             print(f"UNDECIDED property={pid}: {len(lost)} obligations of the pinned-tree baseline are no longer generated, e.g. {lost[:3]}")
             return 2
